@@ -85,6 +85,8 @@ func allPrograms(thorough bool) []prog {
 	for _, sh := range []string{"rc-head", "rc-map", "rc-reduce", "rc-underhead"} {
 		ps = append(ps, prog{Shape: sh, Op: "read"})
 	}
+	// the cached slice wrapped by Prefixed (an operator that only re-describes the slice)
+	ps = append(ps, prog{Shape: "preshpfx", Op: "cache"}, prog{Shape: "preshpfx", Op: "partial"})
 	// second data set: an empty shard and a shard of exactly one vector
 	ps = append(ps, prog{Shape: "mid", Op: "cache", Data: 1}, prog{Shape: "mid", Op: "partial", Data: 1})
 	if thorough {
@@ -1071,7 +1073,12 @@ func (c *checker) reference(progs []prog) {
 				}
 			}
 			if !sameMultiset(union, expectedRows(p)) {
-				ev.Fatal("clean run of %s: shard files hold %v, model %v", p.Name(), union, expectedRows(p))
+				// a fault-free run left shard files that do not hold the complete shards
+				c.r.Violate(fmt.Sprintf("C13/%s/local/incomplete-file-left/no-fault/union-of-shard-files", p.Name()),
+					fmt.Sprintf("fault-free run of %s: the shard files written hold %v, the slice has %v (a shard file must hold the complete encoded shard)", p.Name(), union, expectedRows(p)),
+					map[string]interface{}{"program": p.Name(), "rows_in_files": union, "rows_of_slice": expectedRows(p)})
+				broken = true
+				return
 			}
 			c.keyShard[p.Data] = ks
 		}
